@@ -41,6 +41,7 @@ def st_basis(
     max_nbasis=60,
     min_l=0,
     balanced=False,
+    prim_orders=False,
 ):
     ncenter = draw(st.integers(1, max_centers))
     shells = []
@@ -101,6 +102,9 @@ def st_basis(
         "geom": draw(st.sampled_from(["compact", "compact", "coincident", "spread"])),
         "payload_seed": draw(st.integers(0, 2**32 - 1)),
         "exp_range": list(exp_range),
+        # order in which the primitives of a shell are listed (real basis sets list them by
+        # descending exponent; nothing in the data model requires that)
+        **({"prim_order": draw(st.sampled_from(["descending", "ascending", "shuffled"]))} if prim_orders else {}),
     }
 
 
@@ -205,6 +209,12 @@ def build_basis(spec, lmax=9):
         # keep exponents distinct enough to print differently
         exps = exps * (1 + 0.05 * np.arange(nexp))
         coeffs = rng.uniform(0.2, 1.0, size=(nexp, ncon)) * rng.choice([-1, 1], size=(nexp, ncon))
+        order = spec.get("prim_order", "descending")
+        if order != "descending" and nexp > 1:
+            # a separate generator: specs without the key build exactly what they always built
+            rng2 = np.random.Generator(np.random.PCG64([int(spec["payload_seed"]), 7, len(shells)]))
+            perm = np.arange(nexp)[::-1] if order == "ascending" else rng2.permutation(nexp)
+            exps, coeffs = exps[perm], coeffs[perm]
         shells.append(
             {
                 "icenter": int(sh["icenter"]),
